@@ -972,7 +972,12 @@ def _reference(job):
 
 
 def execute(plan):
-    res = run_isolated(_run, plan)
+    if plan.get("cold"):
+        from ..driver import cold_run
+
+        res = cold_run(NAME, plan)
+    else:
+        res = run_isolated(_run, plan)
     st = res["stats"]
     counters = dict(st)
     violations = []
